@@ -74,6 +74,7 @@ class ImgFn:
         self.vecs = {}         # local std::vector used as a buffer: decl id -> (name, element size)
         self.depth = 0
         self.carry = {}        # carry atom -> dict(var, loop, amount)
+        self.decl_stack = {}   # local pointer -> loops enclosing its declaration
         self.order = []
 
     def atom_of(self, did):
@@ -154,6 +155,19 @@ class ImgFn:
             raise Undecided('loop condition of `%s` is not `%s < bound`' % (name, name))
         bound = -co[1] + 1            # v + rest <= 0  -> v <= -rest  -> v in [0, -rest] -> count -rest+1
         incn = tu.strip(inc) if isinstance(inc, dict) and inc.get('kind') else None
+        # `x++, src += K`: the other parts of a comma increment advance running pointers once per iteration
+        parts = []
+        todo = [incn] if incn is not None else []
+        while todo:
+            q_ = tu.strip(todo.pop())
+            if q_ is not None and q_.get('kind') == 'BinaryOperator' and q_.get('opcode') == ',':
+                todo.extend(reversed(tu.kids(q_)))
+            elif q_ is not None:
+                parts.append(q_)
+        own = [q_ for q_ in parts if q_.get('kind') in ('UnaryOperator', 'CompoundAssignOperator') and
+               tu.ref_decl(tu.kids(q_)[0]) == iv['id']]
+        self.loops[iv['id']]['inc_extra'] = [q_ for q_ in parts if q_ not in own]
+        incn = own[0] if len(own) == 1 else None
         step = None
         if incn is not None and incn.get('kind') == 'UnaryOperator' and incn.get('opcode') == '++':
             if tu.ref_decl(tu.kids(incn)[0]) == iv['id']:
@@ -216,6 +230,8 @@ class ImgFn:
             return None
         k = e0.get('kind')
         res = None
+        if k == 'UnaryOperator' and e0.get('opcode') == '++' and e0.get('isPostfix'):
+            return self.ptr_value(tu.kids(e0)[0]) if not casts else None
         if k == 'UnaryOperator' and e0.get('opcode') == '&':
             x = tu.strip(tu.kids(e0)[0])
             if x is not None and x.get('kind') == 'ArraySubscriptExpr':
@@ -347,34 +363,75 @@ def check_write_image(ctx, tu, f):
                 # pointers advanced inside the body (`in += k;`): their value at the start of an iteration is the value
                 # before the loop plus what earlier iterations added -- a symbol resolved after the body is known
                 bumped = {}
-                for x in tu.walk(b):
+
+                def nearest_is_this_loop(x):
+                    """x lies in the body of this loop, not inside a nested loop, and not under a condition"""
+                    p_ = tu.par(x)
+                    hops = 0
+                    while p_ is not None and hops < 40:
+                        hops += 1
+                        if p_.get('id') == n.get('id'):
+                            return True
+                        if p_.get('kind') in ('ForStmt', 'WhileStmt', 'DoStmt', 'CXXForRangeStmt'):
+                            return False
+                        if p_.get('id') == b.get('id'):
+                            return True
+                        if p_.get('kind') in ('IfStmt', 'ConditionalOperator', 'SwitchStmt') or \
+                                (p_.get('kind') == 'BinaryOperator' and p_.get('opcode') in ('&&', '||')):
+                            return None
+                        p_ = tu.par(p_)
+                    return None
+
+                cands = [(x, 'body') for x in tu.walk(b)] + [(y, 'inc') for q_ in img.loops[vid].get('inc_extra', [])
+                                                              for y in tu.walk(q_)]
+                for x, where in cands:
                     if x.get('kind') in ('CompoundAssignOperator', 'UnaryOperator', 'BinaryOperator') and \
                             x.get('opcode') in ('+=', '-=', '++', '--', '='):
                         did = tu.ref_decl(tu.kids(x)[0])
                         if did is not None and isinstance(img.locals.get(did), tuple) and img.locals[did][0] == 'ptr':
-                            bumped.setdefault(did, []).append(x)
+                            near = True if where == 'inc' else nearest_is_this_loop(x)
+                            if near is False:
+                                continue          # belongs to a nested loop, handled when that loop is entered
+                            if near is None:
+                                raise Undecided('pointer `%s` is advanced under a condition' % tu.show(tu.kids(x)[0]))
+                            bumped.setdefault(did, []).append((x, where))
+                for q_ in img.loops[vid].get('inc_extra', []):
+                    if not any(q_ is x or q_.get('id') == x.get('id') for xs_ in bumped.values() for x, w_ in xs_):
+                        raise Undecided('loop increment `%s` is not modelled' % tu.show(q_))
                 for did, xs in bumped.items():
-                    if len(xs) != 1 or xs[0].get('opcode') != '+=' or tu.par(xs[0]) is None or tu.par(xs[0]).get('id') != b.get('id'):
-                        raise Undecided('pointer `%s` is modified inside a loop in a way that is not modelled' % tu.show(tu.kids(xs[0])[0]))
-                    later = False
-                    seen_bump = False
-                    for c in b.get('inner', ()):
-                        if not (isinstance(c, dict) and c.get('kind')):
-                            continue
-                        if c.get('id') == xs[0]['id']:
-                            seen_bump = True
-                        elif seen_bump and any(tu.ref_decl(y) == did for y in tu.walk(c) if y.get('kind') == 'DeclRefExpr'):
-                            later = True
-                    if later:
-                        raise Undecided('pointer advanced in the middle of a loop body')
+                    x0, where = xs[0]
+                    if len(xs) != 1 or x0.get('opcode') not in ('+=', '++'):
+                        raise Undecided('pointer `%s` is modified inside a loop in a way that is not modelled' % tu.show(tu.kids(x0)[0]))
+                    if where == 'body':
+                        par = tu.par(x0)
+                        if x0.get('opcode') == '++' and not x0.get('isPostfix') and par is not None and par.get('id') != b.get('id') \
+                                and par.get('kind') != 'CompoundStmt':
+                            raise Undecided('pre-increment of `%s` used as a value' % tu.show(tu.kids(x0)[0]))
+                        # nothing in the body may use the pointer after the statement that advances it
+                        top = x0
+                        while tu.par(top) is not None and tu.par(top).get('id') != b.get('id'):
+                            top = tu.par(top)
+                        later = False
+                        seen_bump = b.get('id') == top.get('id') or tu.par(top) is None
+                        for c in (b.get('inner', ()) if not seen_bump else ()):
+                            if not (isinstance(c, dict) and c.get('kind')):
+                                continue
+                            if c.get('id') == top['id']:
+                                seen_bump = True
+                            elif seen_bump and any(tu.ref_decl(y) == did for y in tu.walk(c) if y.get('kind') == 'DeclRefExpr'):
+                                later = True
+                        if later:
+                            raise Undecided('pointer advanced in the middle of a loop body')
                     atom = ('carry', did, vid)
                     pv = img.locals[did]
-                    img.carry[atom] = {'var': did, 'loop': vid, 'node': xs[0], 'amount': None}
+                    outer = [v_ for v_ in stack if v_ not in img.decl_stack.get(did, [])]
+                    img.carry[atom] = {'var': did, 'loop': vid, 'node': x0, 'amount': None, 'outer': outer}
                     img.locals[did] = ('ptr', pv[1], pv[2] + Poly.atom(atom), pv[3])
                 walk(b, stack + [vid])
                 for did, xs in bumped.items():
                     atom = ('carry', did, vid)
-                    img.carry[atom]['amount'] = img.ev().ev(tu.kids(xs[0])[1])
+                    x0 = xs[0][0]
+                    img.carry[atom]['amount'] = Poly.const(1) if x0.get('opcode') == '++' else img.ev().ev(tu.kids(x0)[1])
                 return
             if k == 'CompoundAssignOperator' and isinstance(img.locals.get(tu.ref_decl(tu.kids(n)[0])), tuple):
                 return      # pointer bump, accounted for by the enclosing loop
@@ -413,6 +470,7 @@ def check_write_image(ctx, tu, f):
                         pv = img.ptr_value(init)
                         if pv is not None:
                             img.locals[vd['id']] = pv
+                            img.decl_stack[vd['id']] = list(stack)
                             if pv[0] == 'alloc':
                                 allocs.append((vd, pv, list(stack)))
                                 img.locals[vd['id']] = ('ptr', '@' + vd.get('name', 'buf'), Poly.const(0), pv[2] if len(pv) > 2 else 1)
@@ -432,6 +490,13 @@ def check_write_image(ctx, tu, f):
             if k == 'BinaryOperator' and n.get('opcode') == '=':
                 l, r = tu.kids(n)
                 ls = tu.strip(l)
+                if ls is not None and ls.get('kind') == 'UnaryOperator' and ls.get('opcode') == '*':
+                    bp = img.ptr_value(tu.kids(ls)[0])
+                    if bp is None:
+                        raise Undecided('store `%s` has no normal form' % tu.show(l))
+                    writes.append((bp, Poly.const(0), n, list(stack)))
+                    walk(r, stack)
+                    return
                 if ls is not None and ls.get('kind') == 'ArraySubscriptExpr':
                     bp = img.ptr_value(tu.kids(ls)[0])
                     ix = img.ev().ev(tu.kids(ls)[1])
@@ -440,6 +505,9 @@ def check_write_image(ctx, tu, f):
                     writes.append((bp, ix, n, list(stack)))
                     walk(r, stack)
                     return
+            if k == 'UnaryOperator' and n.get('opcode') == '*' and img.ptr_value(tu.kids(n)[0]) is not None:
+                reads.append((img.ptr_value(tu.kids(n)[0]), Poly.const(0), n, list(stack)))
+                return
             if k == 'ArraySubscriptExpr':
                 bp = img.ptr_value(tu.kids(n)[0])
                 ix = img.ev().ev(tu.kids(n)[1])
@@ -535,7 +603,18 @@ def check_write_image(ctx, tu, f):
             mins = [a for a in amt.atoms() if isinstance(a, tuple) and a[0] == 'min']
             va_ = Poly.atom(('sym', lv['name']))
             if lv.get('step', 1) == 1 and not mins and amt.const_value() is not None:
-                total = total.subst(atom, va_ * amt.const_value())          # p += k in a unit-step loop
+                # p += K once per iteration of a unit-step loop: K*l, plus K*count for every completed pass of the loops
+                # between the pointer's declaration and this loop (mixed radix)
+                K = amt.const_value()
+                term = va_ * K
+                mult = lv['count']
+                for m_ in reversed(info.get('outer', [])):
+                    lm = loops[m_]
+                    if mult is None or lm.get('step', 1) != 1 or lm['count'] is None:
+                        raise Undecided('running pointer `%s` crosses a loop whose trip count is not known' % tu.show(tu.kids(info['node'])[0]))
+                    term = term + Poly.atom(('sym', lm['name'])) * mult * K
+                    mult = mult * lm['count']
+                total = total.subst(atom, term)
                 continue
             if len(mins) != 1:
                 raise Undecided('pointer advance `%s` is not a multiple of the span length' % tu.show(info['node']))
@@ -707,6 +786,13 @@ def check_write_image(ctx, tu, f):
         xlimit = Poly.const(S)
     xa, ca = nest['x'], nest['c']
     want_ix = Poly.atom(xa) * N + Poly.atom(ca)
+    try:
+        out_ix = resolve_carry(bp[2] + ix)
+    except Undecided as u:
+        ctx.undecided(R, inst, 'store into the row buffer: %s' % u, tu.loc(n))
+        return
+    bp = (bp[0], bp[1], out_ix, bp[3])
+    ix = Poly.const(0)
     if bp[2] + ix != want_ix:
         b = bounds_over(bp[2] + ix, [(xa, xlimit), (ca, Poly.const(N))])
         ctx.violation(R, inst, 'output index is `%s`; required N_COMP*x + c = %s so that the elements of the row buffer are each '
@@ -795,11 +881,40 @@ def check_wrappers(ctx, tu):
         inst = '%s(%s)' % (name, pt.replace('rkcommon::math::', ''))
         keyb = '%s|%s|%s|' % (R, tu.fn_file(f), name)
         n += 1
-        calls = [c for c in tu.walk(tu.body(f)) if c.get('kind') == 'CallExpr' and tu.sd(c).get('q') == UTIL + 'writeImage']
-        if len(calls) != 1:
-            ctx.undecided(R, inst, 'expected exactly one call of writeImage, found %d' % len(calls), tu.fn_loc(f))
+        # the call of writeImage, possibly behind forwarding helpers of the utility namespace (parameters -> arguments)
+        found = []
+
+        def find_calls(fn, env, depth):
+            for c in tu.walk(tu.body(fn)):
+                if c.get('kind') != 'CallExpr':
+                    continue
+                q = tu.sd(c).get('q', '')
+                if q == UTIL + 'writeImage':
+                    found.append((c, env))
+                elif q.startswith(UTIL) and depth < 4:
+                    cf = tu.callee_fn(c)
+                    if cf is not None and tu.body(cf) is not None and cf['id'] != fn['id']:
+                        env2 = dict(env)
+                        for p_, a in zip(cf.get('params', []), tu.call_parts(c)[2]):
+                            env2[p_['id']] = (a, env)
+                        find_calls(cf, env2, depth + 1)
+
+        def resolve(a, env, depth=0):
+            """follow helper parameters back to the wrapper's own expression"""
+            while a is not None and depth < 8:
+                depth += 1
+                x = tu.strip(a, casts=True)
+                if x is not None and x.get('kind') == 'DeclRefExpr' and x.get('referencedDecl', {}).get('id') in env:
+                    a, env = env[x['referencedDecl']['id']]
+                    continue
+                return x
+            return None
+
+        find_calls(f, {}, 0)
+        if len(found) != 1:
+            ctx.undecided(R, inst, 'expected exactly one call of writeImage (helpers followed), found %d' % len(found), tu.fn_loc(f))
             continue
-        call = calls[0]
+        call, cenv = found[0]
         callee = tu.callee_fn(call)
         if callee is None or len(callee.get('targs') or []) != 5:
             ctx.undecided(R, inst, 'the writeImage instantiation called is not in the facts', tu.loc(call))
@@ -815,11 +930,18 @@ def check_wrappers(ctx, tu):
             ctx.undecided(R, inst, 'unexpected parameter / argument count', tu.loc(call))
             continue
         for i, (a, w) in enumerate(zip(args, want)):
-            if w is not None and tu.ref_decl(a) != w:
+            ra = resolve(a, cenv)
+            if w is not None and (ra is None or ra.get('kind') != 'DeclRefExpr' or ra.get('referencedDecl', {}).get('id') != w):
                 ctx.violation(R, inst, 'argument %d of writeImage is `%s`; required the wrapper\'s `%s`'
                               % (i + 1, tu.show(a), f['params'][[0, 0, 1, 2, 3][i]]['name']), tu.loc(call), key=keyb + 'argument-%d' % (i + 1))
                 good = False
-        hl = tu.strip(args[1], casts=True)
+        hl = resolve(args[1], cenv)
+        if hl is not None and hl.get('kind') in ('CallExpr', 'CXXMemberCallExpr') and not tu.call_parts(hl)[2]:
+            # a traits function returning the header literal
+            hf = tu.callee_fn(hl)
+            rets = [r for r in tu.walk(tu.body(hf)) if r.get('kind') == 'ReturnStmt'] if hf is not None and tu.body(hf) is not None else []
+            if len(rets) == 1 and tu.kids(rets[0]):
+                hl = tu.strip(tu.kids(rets[0])[0], casts=True)
         hdr = c_string(hl.get('value')) if hl is not None and hl.get('kind') == 'StringLiteral' else None
         if hdr is None:
             ctx.undecided(R, inst, 'header is not a string literal', tu.loc(call))
@@ -1977,6 +2099,10 @@ def loop_kind(tu, range_expr, derived=None):
     return None
 
 
+# the container of still-open begin events: a stack / vector / deque / list of pointers to TraceEvent
+BEGIN_STACK_RX = re.compile(r'std::(stack|vector|deque|list)<\s*(const\s+)?(rkcommon::tracing::)?TraceEvent(\s+const)?\s*\*')
+
+
 def check_iteration(ctx, tu, f, R):
     """saveLog, with the tracing helpers it calls expanded at their call sites: thread loop > chunk loop > event loop,
     each ranging over the element of the enclosing one; the stack of open begin events outlives the chunk loop"""
@@ -2024,7 +2150,7 @@ def check_iteration(ctx, tu, f, R):
         if k == 'LambdaExpr':
             notes.append('a lambda inside saveLog is not followed')
             return
-        if k == 'VarDecl' and re.search(r'std::stack<.*TraceEvent', n.get('type', {}).get('qualType', '')):
+        if k == 'VarDecl' and BEGIN_STACK_RX.search(n.get('type', {}).get('qualType', '')):
             stacks.append((n, list(lctx), fn))
         if k in ('CallExpr', 'CXXMemberCallExpr'):
             callee = tu.callee_fn(n)
@@ -2096,8 +2222,10 @@ def check_iteration(ctx, tu, f, R):
                 return
             if k == 'IfStmt':
                 ks = [c for c in n.get('inner', ()) if isinstance(c, dict) and c.get('kind')]
-                for c in ks[1:]:
-                    yield from skips(c, conds + [ks[0]])
+                if len(ks) >= 2:
+                    yield from skips(ks[1], conds + [(ks[0], True)])
+                if len(ks) >= 3:
+                    yield from skips(ks[2], conds + [(ks[0], False)])      # else branch: the condition is false here
                 return
             for c in n.get('inner', ()):
                 if isinstance(c, dict) and c.get('kind'):
@@ -2119,22 +2247,55 @@ def check_iteration(ctx, tu, f, R):
         found_skips = []
         emitted = False
         for st_ in body_stmts:
-            if not emitted:
-                found_skips += list(skips(st_, []))
+            for sk_, cs_ in skips(st_, []):
+                # once the event is in the log, going on to the next event (continue) drops nothing; leaving the loop
+                # (break / return / goto) still abandons the events that follow
+                if not emitted or sk_.get('kind') != 'ContinueStmt':
+                    found_skips.append((sk_, cs_))
             if emits(st_):
-                emitted = True      # the event is in the log from here on; leaving the body later drops nothing
+                emitted = True
+        def event_only(c, depth=0):
+            """does the condition depend on nothing but the event being visited (its type, fields, flags derived from it)"""
+            if depth > 4:
+                return False
+            for x in tu.walk(c):
+                k_ = x.get('kind')
+                if k_ in ('CallExpr', 'CXXMemberCallExpr', 'CXXOperatorCallExpr') and \
+                        not tu.sd(x).get('q', '').split('::')[-1].startswith('operator'):
+                    return False
+                if k_ == 'DeclRefExpr':
+                    rd = x.get('referencedDecl', {})
+                    if rd.get('kind') in ('EnumConstantDecl', 'FunctionDecl', 'CXXMethodDecl'):
+                        continue
+                    if rd.get('id') == entry['var']:
+                        continue
+                    vd_ = tu.node(rd.get('id'))
+                    if vd_ is not None and vd_.get('kind') == 'VarDecl' and tu.kids(vd_) and event_only(tu.kids(vd_)[0], depth + 1):
+                        continue
+                    return False
+            return True
+
         for sk, conds in found_skips:
             stack_empty = False
-            for c in conds:
+            for c, pol in conds:
+                if not pol:
+                    continue
                 for x in tu.walk(c):
-                    if x.get('kind') == 'CXXMemberCallExpr' and tu.sd(x).get('q', '').startswith('std::stack') and \
-                            tu.sd(x).get('q', '').endswith('::empty'):
+                    if x.get('kind') == 'CXXMemberCallExpr' and tu.sd(x).get('q', '').endswith('::empty') and \
+                            tu.call_parts(x)[1] is not None and \
+                            BEGIN_STACK_RX.search(tu.sd(tu.strip(tu.call_parts(x)[1])).get('ct', '')):
                         stack_empty = True
-            if not stack_empty:
-                ctx.violation(R, inst, '`%s` leaves the event loop body under `%s`: recorded events are dropped from the log'
-                              % (sk.get('kind'), ' && '.join(tu.show(c) for c in conds) or 'no condition'), tu.loc(sk),
+            if stack_empty:
+                continue          # the documented error exit: an end event without an open begin event
+            text = ' && '.join(('%s' if pol else '!(%s)') % tu.show(c) for c, pol in conds) or 'no condition'
+            if all(event_only(c) for c, pol in conds):
+                ctx.violation(R, inst, '`%s` leaves the event loop body under `%s`: recorded events (this one, or for a break the '
+                              'rest of the chunk) are dropped from the log' % (sk.get('kind'), text), tu.loc(sk),
                               key=keyb + 'event-skipped')
-                good = False
+            else:
+                ctx.undecided(R, inst, '`%s` leaves the event loop body under `%s`, a condition that is not understood'
+                              % (sk.get('kind'), text), tu.loc(sk))
+            good = False
     # the stack of open begin events must survive the boundary between two storage chunks of a thread
     for vd, lctx, fn in stacks:
         kinds = [l['kind'] for l in lctx]
